@@ -34,8 +34,7 @@ theorem readComponent_at (r : Rd) (buf : Bytes) (p : Nat) (c : Component) (t : B
   have hpos3 : p + tlLen c.typ + tlLen c.val.length + c.val.length = p + compLen c := by unfold compLen; omega
   rw [hpos3] at a3 d3
   refine ⟨r3, ?_, a3, d3⟩
-  have hoom : lenOutOfModel c.val.length = false := by simp [lenOutOfModel]; omega
-  simp [readComponent, e1, e2, hoom, e3, htk3]
+  simp [readComponent, e1, e2, e3, htk3]
 
 theorem readNameLoop_at : ∀ (n : Name) (fuel : Nat) (r : Rd) (buf : Bytes) (p : Nat) (acc : Name),
     At r buf p → buf.drop p = encNameInner n → NameValid n → nameLen n < 2 ^ 62 → n.length < fuel →
